@@ -35,10 +35,10 @@ RewardShort(nd) == nd.a \in LockerActs \ {"CreateLocker"} /\ ~nd.res.ok /\ Log[n
 ConfLocker(nd) ==
   LET p == Pre(nd) g == nd.args r == Rw(nd) IN
   RewardShort(nd) \/
-  CASE nd.a = "CreateLocker" -> Res(nd, CreateLocker(p, g.u, g.app, g.amt))
-    [] nd.a = "DepositLocker" -> Res(nd, DepositLocker(p, g.u, g.app, g.id, g.amt, r))
-    [] nd.a = "WithdrawLocker" -> Res(nd, WithdrawLocker(p, g.u, g.app, g.id, g.amt, r))
-    [] nd.a = "CloseLocker" -> Res(nd, CloseLocker(p, g.u, g.app, g.id, r))
+  CASE nd.a = "CreateLocker" -> Res(nd, CreateLocker(p, g.u, g.app, g.asset, g.amt))
+    [] nd.a = "DepositLocker" -> Res(nd, DepositLocker(p, g.u, g.app, g.asset, g.id, g.amt, r))
+    [] nd.a = "WithdrawLocker" -> Res(nd, WithdrawLocker(p, g.u, g.app, g.asset, g.id, g.amt, r))
+    [] nd.a = "CloseLocker" -> Res(nd, CloseLocker(p, g.u, g.app, g.asset, g.id, r))
     [] nd.a = "RewardCalc" -> Res(nd, RewardCalc(p, g.app, g.id, r))
     [] OTHER -> TRUE
 ConfVault(nd) ==
@@ -47,6 +47,15 @@ ConfVault(nd) ==
     CASE nd.a = "VaultCreate" -> Res(nd, VaultCreate(p, c, g.u, g.app, g.in, g.out))
       [] nd.a = "VaultDraw" -> Res(nd, VaultDraw(p, c, g.u, g.app, g.id, g.amt))
       [] nd.a = "VaultClose" -> Res(nd, VaultClose(p, c, g.u, g.app, g.id))
+
+(* saving-rate change: the rewards credited to the lockers are read off the recorded step, everything else      *)
+(* (lookup total, net fees, custody of collector and locker module) must follow from them                        *)
+RsOf(nd) == LET p == Pre(nd) s == Post(nd) IN
+            [i \in 1..Len(p.lockers) |-> NetOfId(s, p.lockers[i].id) - p.lockers[i].net]
+ConfLsrChange(nd) ==
+  nd.a = "LsrChange" =>
+     LET p == Pre(nd) rs == RsOf(nd) IN
+     IF nd.res.ok /\ LsrChangeOk(p, nd.args.app, rs) THEN Same(LsrChange(p, nd.args.app, rs), Post(nd)) ELSE FALSE
 
 (* ------------------------------ C13 ------------------------------ *)
 C13LockerTotals(nd) == TotalsMatch(Post(nd))
@@ -79,12 +88,13 @@ C13SavingsExact(nd) ==
          got == IF nd.a \in {"CreateLocker", "DepositLocker"} /\ nd.res.ok THEN nd.args.amt ELSE 0
      IN s.bal["lock"][ST] - p.bal["lock"][ST] = Rw(nd) + got - paid
 
-Formulas == <<"Conf_Locker", "Conf_Vault", "C13_LockerTotals", "C13_LockerCustody", "C13_WithdrawExact", "C13_CloseExact",
+Formulas == <<"Conf_Locker", "Conf_Vault", "Conf_LsrChange", "C13_LockerTotals", "C13_LockerCustody", "C13_WithdrawExact", "C13_CloseExact",
               "C13_LockerNoLeak", "C13_NetFeesNonNeg", "C13_CollectorDelta", "C13_RootBacked", "C13_SavingsExact">>
 Holds(f, i) ==
   LET nd == Nd(i) IN
   CASE f = "Conf_Locker" -> ConfLocker(nd)
     [] f = "Conf_Vault" -> ConfVault(nd)
+    [] f = "Conf_LsrChange" -> ConfLsrChange(nd)
     [] f = "C13_LockerTotals" -> C13LockerTotals(nd)
     [] f = "C13_LockerCustody" -> C13LockerCustody(nd)
     [] f = "C13_WithdrawExact" -> C13WithdrawExact(nd)
@@ -112,6 +122,12 @@ Stats == PrintT(<<"STATS", [nodes |-> NLog,
    interestPaid |-> Count(LAMBDA nd : nd.a \in {"VaultRepay", "VaultClose"} /\ ~NoInterest(nd) /\ ColDelta(nd) > 0),
    penalties |-> Count(LAMBDA nd : nd.a = "DutchBid" /\ nd.res.ok /\ ColDelta(nd) > 0),
    rewardShort |-> Count(RewardShort),
+   crossAppRewardCalc |-> Count(LAMBDA nd : nd.a = "RewardCalc" /\ LIdx(Pre(nd).lockers, nd.args.id) # 0 /\ nd.args.app # LockerApp(nd)
+                                             /\ Log[nd.parent].st.lsrOn[nd.args.app] /\ Pre(nd).nf[nd.args.app][ST] >= 5 /\ Log[nd.parent].st.lage[LIdx(Pre(nd).lockers, nd.args.id)] >= 2592000),
+   crossAppMsgs |-> Count(LAMBDA nd : nd.a \in {"DepositLocker", "WithdrawLocker", "CloseLocker"} /\ LIdx(Pre(nd).lockers, nd.args.id) # 0 /\ nd.args.app # LockerApp(nd)),
+   wrongAssetMsgs |-> Count(LAMBDA nd : nd.a \in LockerActs \ {"RewardCalc"} /\ nd.args.asset # ST),
+   lsrChanges |-> Count(LAMBDA nd : nd.a = "LsrChange" /\ nd.res.ok),
+   lsrChangesMulti |-> Count(LAMBDA nd : nd.a = "LsrChange" /\ nd.res.ok /\ Cardinality({i \in 1..Len(Pre(nd).lockers) : RsOf(nd)[i] > 0}) >= 2),
    twoApps |-> Count(LAMBDA nd : nd.st.nf["a1"][ST] > 0 /\ nd.st.nf["a2"][ST] > 0) ]>>)
 AllSeen == Stats /\ TLCGet("stats").distinct = NLog
 =============================================================================
